@@ -6,6 +6,8 @@ package sim
 import (
 	"fmt"
 	"strings"
+	"testing"
+	"time"
 )
 
 func oracleC20(x *Exec, so *StepObs) {
@@ -150,4 +152,88 @@ func genC20(seed, index uint64, tier string) *Plan {
 	p.Policy = "uniform"
 	p.Schedule = g.Schedule(32)
 	return p.Clone()
+}
+
+// ---- C20 (render slice): self-referential templates must end in an error, not in a crash ----
+//
+// Strictly this is input-shaped rather than fault-shaped (DESIGN §7); it is kept because it is
+// cheap on the render harness and because the failure mode (a fatal stack overflow that no
+// recover() can catch) only shows at process level, which the driver's worker-crash handling sees.
+
+func genC20c(g *Gen, seed, index uint64) *Plan {
+	p := &Plan{Check: "C20", Seed: seed, Index: index, Backend: "none", Variant: "recursive-templates", Namespace: "ns1", Release: "rel"}
+	cs := ChartSpec{Name: "demo", Version: "1.0.0", Values: map[string]interface{}{"a": "x"}}
+	raw := map[string]string{}
+	vals := map[string]interface{}{}
+	shape := g.Pick("include-self", "include-mutual", "tpl-cycle", "tpl-cycle-partial", "tpl-nested-finite", "include-chain-finite", "template-self")
+	switch shape {
+	case "include-self":
+		raw["templates/_h.tpl"] = `{{- define "loop" -}}x{{ include "loop" . }}{{- end -}}`
+		raw["templates/a.yaml"] = "apiVersion: v1\nkind: ConfigMap\nmetadata:\n  name: a\ndata:\n  k: {{ include \"loop\" . | quote }}\n"
+	case "include-mutual":
+		raw["templates/_h.tpl"] = `{{- define "ping" -}}{{ include "pong" . }}{{- end -}}{{- define "pong" -}}{{ include "ping" . }}{{- end -}}`
+		raw["templates/a.yaml"] = "apiVersion: v1\nkind: ConfigMap\nmetadata:\n  name: a\ndata:\n  k: {{ include \"ping\" . | quote }}\n"
+	case "tpl-cycle":
+		vals["snippet"] = `{{ include "loop" . }}`
+		raw["templates/_h.tpl"] = `{{- define "loop" -}}{{ tpl .Values.snippet . }}{{- end -}}`
+		raw["templates/a.yaml"] = "apiVersion: v1\nkind: ConfigMap\nmetadata:\n  name: a\ndata:\n  k: {{ include \"loop\" . | quote }}\n"
+	case "tpl-cycle-partial":
+		vals["snippet"] = `{{ tpl .Values.other . }}`
+		vals["other"] = `{{ include "viaTpl" . }}`
+		raw["templates/_h.tpl"] = `{{- define "viaTpl" -}}{{ tpl .Values.snippet . }}{{- end -}}`
+		raw["templates/a.yaml"] = "apiVersion: v1\nkind: ConfigMap\nmetadata:\n  name: a\ndata:\n  k: {{ tpl .Values.snippet . | quote }}\n"
+	case "tpl-nested-finite":
+		vals["l1"] = `{{ tpl .Values.l2 . }}`
+		vals["l2"] = `{{ tpl .Values.l3 . }}`
+		vals["l3"] = `leaf-{{ .Release.Name }}`
+		raw["templates/a.yaml"] = "apiVersion: v1\nkind: ConfigMap\nmetadata:\n  name: a\ndata:\n  k: {{ tpl .Values.l1 . | quote }}\n"
+	case "include-chain-finite":
+		var b strings.Builder
+		n := 20 + g.N(60)
+		for i := 0; i < n; i++ {
+			fmt.Fprintf(&b, "{{- define \"c%d\" -}}{{ include \"c%d\" . }}{{- end -}}\n", i, i+1)
+		}
+		fmt.Fprintf(&b, "{{- define \"c%d\" -}}end{{- end -}}\n", n)
+		raw["templates/_h.tpl"] = b.String()
+		raw["templates/a.yaml"] = "apiVersion: v1\nkind: ConfigMap\nmetadata:\n  name: a\ndata:\n  k: {{ include \"c0\" . | quote }}\n"
+	case "template-self":
+		raw["templates/_h.tpl"] = `{{- define "self" -}}{{ template "self" . }}{{- end -}}`
+		raw["templates/a.yaml"] = "apiVersion: v1\nkind: ConfigMap\nmetadata:\n  name: a\ndata:\n  k: {{ include \"self\" . | quote }}\n"
+	}
+	cs.RawFiles = raw
+	p.Charts = []ChartSpec{cs}
+	p.Steps = []Step{{Op: &OpSpec{Op: "install", Chart: 0, Values: vals, DryRun: true, ClientOnly: true, Description: shape}}}
+	p.Render = &RenderSpec{K: 0}
+	return p.Clone()
+}
+
+// ExecuteC20c renders one self-referential chart; the only verdicts are "panicked" and "took too long".
+func ExecuteC20c(t *testing.T, plan *Plan) *RunResult {
+	res := &RunResult{Check: plan.Check, Seed: plan.Seed, Index: plan.Index, Variant: plan.Variant, FaultsFired: map[string]int{}, Probes: map[string]int{}}
+	t0 := time.Now()
+	shape := plan.Steps[0].Op.Description
+	out := renderOnce(&plan.Charts[0], plan.Steps[0].Op.Values, plan.Render, nil)
+	wall := time.Since(t0)
+	res.WallMs = float64(wall.Microseconds()) / 1000
+	res.Checks = 2
+	if strings.HasPrefix(out.Err, "panic:") {
+		res.Violations = append(res.Violations, Violation{"C20", "no-panic", "render", shape, "rendering panicked: " + trunc(out.Err, 400), 0})
+	}
+	if wall > 60*time.Second {
+		res.Violations = append(res.Violations, Violation{"C20", "no-hang", "render", shape, fmt.Sprintf("rendering took %v", wall), 0})
+	}
+	finite := shape == "tpl-nested-finite" || shape == "include-chain-finite"
+	if finite && out.Err != "" {
+		res.Violations = append(res.Violations, Violation{"C20", "finite-nesting-renders", "render", shape, "a finite nesting was rejected: " + trunc(out.Err, 300), 0})
+	}
+	if !finite && out.Err == "" {
+		res.Violations = append(res.Violations, Violation{"C20", "cycle-reported", "render", shape, "an infinitely self-referential template rendered without error", 0})
+	}
+	res.Probes["recursive-template:"+shape]++
+	res.Outcome = fmt.Sprintf("c20c %s err=%q", shape, trunc(out.Err, 80))
+	res.Signature = bodyHash([]byte(res.Outcome))
+	res.NonTrivial = true
+	res.Events = 1
+	res.EventHash = bodyHash([]byte(fmt.Sprintf("%s|%v", shape, out.Err != "")))
+	return res
 }
